@@ -1,14 +1,19 @@
 #!/bin/bash
-# run_seeded.sh <seeded-id> <prop> [more props...] : apply a seeded change to /repo, run the given properties' quick checks,
-# undo the change, append the outcome to seeded/RESULTS.md
+# run_seeded.sh <seeded-id> <prop[:tier[:only-substr]]>... : apply a seeded change to /repo, run the named checks,
+# ALWAYS undo the change, append one line per check to seeded/RESULTS.tmp
 id=$1; shift
-cd /repo && git checkout -q -- . && git apply /verif/seeded/$id/patch.diff || { echo "$id: patch does not apply"; exit 2; }
-for p in "$@"; do
-  out=$(/verif/bin/vk check $p --tier quick --no-evidence ${VK_EXTRA:-} 2>&1 | grep -E "^vk:|VIOLATION|INCONCLUSIVE" )
+cd /repo && git checkout -q -- . && git apply /verif/seeded/$id/patch.diff || { echo "$id: patch does not apply"; git -C /repo checkout -q -- .; exit 2; }
+trap 'git -C /repo checkout -q -- .' EXIT
+for spec in "$@"; do
+  IFS=: read p tier only <<< "$spec"
+  args="check $p --tier ${tier:-quick} --no-evidence ${VK_EXTRA:---no-replay}"
+  [ -n "$only" ] && args="$args --only $only"
+  s=$(date +%s)
+  out=$(/verif/bin/vk $args 2>&1 | grep -E "^vk:|VIOLATION|INCONCLUSIVE")
   rc=$(echo "$out" | grep -oE "exit [0-9]+" | tail -1)
   viol=$(echo "$out" | grep -c "^VIOLATION")
-  first=$(echo "$out" | grep "^vk: $p harness" | head -2 | cut -c1-220 | tr '\n' ' ')
-  echo "| $id | $p | $rc | $viol | $first |" >> /verif/seeded/RESULTS.tmp
-  echo "$id $p: $rc violations=$viol :: $first"
+  first=$(echo "$out" | grep "^vk: $p harness" | head -2 | cut -c1-260 | tr '\n' ' ' | tr '|' '/')
+  inc=$(echo "$out" | grep "^INCONCLUSIVE" | head -1 | cut -c1-160 | tr '|' '/')
+  echo "| $id | $p ${tier:-quick} ${only} | $rc | $viol | $(( $(date +%s) - s )) s | $first $inc |" >> /verif/seeded/RESULTS.tmp
+  echo "$id $spec: $rc violations=$viol :: $first $inc"
 done
-git -C /repo checkout -q -- .
